@@ -121,13 +121,24 @@ def run(ctx):
     # ---- M3
     mg = ctx.fn(I + 'MulGeneric(MulOp,Ax)')
     en = {e['name']: e['v'] for e in ctx.F['enums']['MulOp']['enumerators']}
-    sw = [x for x in walk(mg['body']) if x.get('k') == 'switch']
-    ctx.require(len(sw) == 1, 'MulGeneric: switch not found')
+    # which multiplication each kind launches, from the guarded summary (E11): for the value of each enumerator, the calls of
+    # DoMultiplication whose path condition holds (per-arm calls, or flags set per arm and one call after the switch)
+    from .. import summ as _summ, boolform as _bf
+    import re as _re
+    effm = _summ.summary(ctx, mg, asserts='ignore').effect_conditions(lambda e: e[0] == 'call' and 'Interpreter::DoMultiplication on this' in e[1])
+    ctx.require(bool(effm), 'MulGeneric: no DoMultiplication call found')
+    sw = [mg['body']]
     got = {}
-    for arm in switch_arms(sw[0]):
-        calls = [[const_value(a) for a in c['args']] for st in arm['stmts'] for c in walk(st) if c.get('k') == 'call' and c.get('name') == 'DoMultiplication']
-        for l in arm['labels']:
-            got[l] = calls
+    for nm_, v_ in en.items():
+        calls = []
+        for e_, c_ in effm.items():
+            t_ = _bf.eval_selector(c_, '$0', v_, en)
+            if t_ is None:
+                calls.append(None)          # a condition on something other than the operation: cannot be attributed
+            elif t_:
+                m_ = _re.search(r'DoMultiplication on this (\S+) (\S+) (\S+)\)$', e_[1])
+                calls.append([int(x) if x.lstrip('-').isdigit() else None for x in m_.groups()] if m_ else None)
+        got[v_] = calls
     WANT = {'Mpy': [0, 1, 1], 'Mac': [0, 1, 1], 'Maa': [0, 1, 1], 'Mpysu': [0, 0, 1], 'Macsu': [0, 0, 1], 'Maasu': [0, 0, 1],
             'Macus': [0, 1, 0], 'Macuu': [0, 0, 0]}
     for nm, w in WANT.items():
